@@ -116,6 +116,9 @@ func ToSignedState(protoSignedState *SignedState) (signedState channel.SignedSta
 	}
 	signedState.Sigs = make([][]byte, len(protoSignedState.GetSigs()))
 	for i := range protoSignedState.GetSigs() {
+		if len(protoSignedState.GetSigs()[i]) == 0 {
+			continue // An absent signature is transported as empty bytes and stays nil.
+		}
 		signedState.Sigs[i] = make([]byte, len(protoSignedState.GetSigs()[i]))
 		copy(signedState.Sigs[i], protoSignedState.GetSigs()[i])
 	}
